@@ -50,6 +50,7 @@ const (
 	magicFreed      = 0x46524545 // "FREE"
 	maxPGLiveBlocks = 24000
 	nShards         = 64
+	bigBlock        = 4 << 20
 )
 
 type region struct {
@@ -103,6 +104,7 @@ type block struct {
 	npages uintptr
 	stack  [6]uintptr
 	fstack [6]uintptr
+	big    bool
 }
 
 // Violation is something the allocator itself observed.
@@ -224,6 +226,22 @@ func (a *Alloc) Malloc(sz int) unsafe.Pointer {
 	if a.Stacks {
 		runtime.Callers(2, b.stack[:])
 	}
+	if sz > bigBlock {
+		// very large requests (e.g. a damaged length prefix): own mapping, unmapped again on free
+		n := (uintptr(sz) + pageSize - 1) &^ (pageSize - 1)
+		base, err := mmapRaw(0, n, syscall.PROT_READ|syscall.PROT_WRITE, syscall.MAP_PRIVATE|syscall.MAP_ANON|syscall.MAP_NORESERVE)
+		if err != nil {
+			panic(fmt.Sprintf("galloc: cannot map %d bytes: %v", sz, err))
+		}
+		b.addr, b.pages, b.npages, b.big = base, base, n/pageSize, true
+		s := a.shardOf(b.addr)
+		s.Lock()
+		s.live[b.addr] = b
+		s.Unlock()
+		atomic.AddInt64(&a.NAllocs, 1)
+		atomic.AddInt64(&a.liveCount, 1)
+		return unsafe.Pointer(b.addr)
+	}
 	usePG := a.mode == PageGuard
 	if usePG && atomic.LoadInt64(&a.liveCount) >= maxPGLiveBlocks {
 		usePG = false
@@ -325,6 +343,10 @@ func (a *Alloc) Free(p unsafe.Pointer) {
 	a.cbmu.RUnlock()
 	atomic.AddInt64(&a.NFrees, 1)
 	atomic.AddInt64(&a.liveCount, -1)
+	if b.big {
+		syscall.Syscall(syscall.SYS_MUNMAP, b.pages, b.npages*pageSize, 0)
+		return
+	}
 	if b.pages != 0 {
 		rsz := (uintptr(b.size) + 7) &^ 7
 		for i := uintptr(b.size); i < rsz; i++ {
